@@ -1,9 +1,14 @@
 package chainx
 
 import (
+	"github.com/nspcc-dev/neo-go/pkg/core/block"
 	"github.com/nspcc-dev/neo-go/pkg/core/transaction"
+	"github.com/nspcc-dev/neo-go/pkg/crypto/hash"
 	"github.com/nspcc-dev/neo-go/pkg/smartcontract"
+	"github.com/nspcc-dev/neo-go/pkg/smartcontract/callflag"
+	"github.com/nspcc-dev/neo-go/pkg/smartcontract/trigger"
 	"github.com/nspcc-dev/neo-go/pkg/util"
+	"github.com/nspcc-dev/neo-go/pkg/vm/opcode"
 	"github.com/nspcc-dev/neo-go/pkg/vm/stackitem"
 	"github.com/stretchr/testify/require"
 )
@@ -11,6 +16,12 @@ import (
 // NsxDryRun test-invokes a method on the current state with the given accounts as Global-scope signers.
 // No transaction is signed and nothing is committed (about 10x cheaper than CallAs, which signs a
 // transaction first). Returns whether the VM HALTed, the result stack and the fault text.
+//
+// Coverage: the same measurement as Chain.TestInvoke, but the instructions of the entry script are not
+// recorded. Every probe has its own entry script (the arguments are part of it), so recording them adds one
+// never-resolvable script hash per probe to the coverage table, and coverResolve — which walks the whole table
+// after every invocation — turns a run of n probes into n²/2 contract look-ups (88 779 probes: ~390 s instead
+// of ~15 s). Only deployed contracts are resolved to source statements anyway.
 func (c *Chain) NsxDryRun(signers []util.Uint160, h util.Uint160, method string, args ...any) (bool, []stackitem.Item, string) {
 	script, err := smartcontract.CreateCallScript(h, method, args...)
 	require.NoError(c.T, err)
@@ -20,9 +31,26 @@ func (c *Chain) NsxDryRun(signers []util.Uint160, h util.Uint160, method string,
 	for _, s := range signers {
 		tx.Signers = append(tx.Signers, transaction.Signer{Account: s, Scopes: transaction.Global})
 	}
-	v, err := c.TestInvoke(tx)
+	last := c.E.TopBlock(c.T)
+	b := &block.Block{Header: block.Header{Index: c.BC.BlockHeight() + 1, Timestamp: last.Timestamp + 1}}
+	ic, _ := c.BC.GetTestVM(trigger.Application, tx, b)
+	defer ic.Finalize()
+	cover := CoverFile() != ""
+	if cover {
+		entry := hash.Hash160(script)
+		ic.VM.SetOnExecHook(func(sh util.Uint160, offset int, op opcode.Opcode) {
+			if sh != entry {
+				coverHook(sh, offset, op)
+			}
+		})
+	}
+	ic.VM.LoadWithFlags(script, callflag.All)
+	err = ic.VM.Run()
+	if cover {
+		c.coverResolve()
+	}
 	if err != nil {
 		return false, nil, err.Error()
 	}
-	return true, v.Estack().ToArray(), ""
+	return true, ic.VM.Estack().ToArray(), ""
 }
